@@ -29,6 +29,15 @@ theorem stripSets_denote :
     10 ∈ Generated.rstripSet ∧ 13 ∈ Generated.rstripSet ∧
     32 ∈ Generated.lstripSet ∧ 9 ∈ Generated.lstripSet := by decide
 
+/-- the break sets the SPEC side uses (`strBreak` for `str.splitlines`, `bytesBreak` for
+    `bytes.splitlines`) are the ones of the running interpreter: the two tables are regenerated on
+    every run by evaluating `splitlines` on every code point / byte value -/
+theorem pySplit_tables :
+    (∀ c, strBreak c = Generated.strBreakSet.contains c) ∧
+    (∀ c, bytesBreak c = Generated.bytesBreakSet.contains c) := by
+  constructor <;> intro c <;> rw [Bool.eq_iff_iff] <;>
+    simp [strBreak, bytesBreak, Generated.strBreakSet, Generated.bytesBreakSet, or_assoc]
+
 /-! ## iter_splitlines -/
 
 /-- for EVERY text: `iter_splitlines(t)` is the `splitlines` algorithm run with exactly the eight
